@@ -51,7 +51,29 @@ type queueAnchors struct {
 	err               string
 }
 
+var queueMemo *queueAnchors
+
 func resolveQueue(w *World, c *simCtx) queueAnchors {
+	if queueMemo == nil {
+		q := resolveQueue0(w, c)
+		queueMemo = &q
+		w.MarkBoundary("queue constructor", q.ctor)
+	}
+	return *queueMemo
+}
+
+// freshQueue: the value is a queue that was just created (a call of the
+// queue constructor, or an allocation of the queue type in place).
+func (c *simCtx) freshQueue(w *World, v *T) bool {
+	v = stripConv(v)
+	if v.Op == "call" {
+		q := resolveQueue(w, c)
+		return q.ctor != nil && v.S == fnKey(q.ctor)
+	}
+	return v.Op == "new" && c.a.QueueT != nil && typeName(v.Ty) == "*"+c.a.QueueT.Obj().Name()
+}
+
+func resolveQueue0(w *World, c *simCtx) queueAnchors {
 	q := queueAnchors{}
 	if c.a.QueueT == nil {
 		q.err = "queue type unresolved"
@@ -362,10 +384,7 @@ func rulePairAlive(w *World, r *RuleResult) {
 			for i := 0; i < s.i; i++ {
 				e := &s.p.Events[i]
 				if e.Kind == "store" {
-					if x, ok := selOf(e.LV, c.a.QField); ok && x.Show() == s.war.Show() && e.Val.Op == "call" && strings.Contains(e.Val.S, "newProcessQueue") {
-						fresh = true
-					}
-					if x, ok := selOf(e.LV, c.a.QField); ok && x.Show() == s.war.Show() && e.Val.Op == "call" && resolveQueue(w, c).ctor != nil && e.Val.S == fnKey(resolveQueue(w, c).ctor) {
+					if x, ok := selOf(e.LV, c.a.QField); ok && x.Show() == s.war.Show() && c.freshQueue(w, e.Val) {
 						fresh = true
 					}
 				}
@@ -1083,7 +1102,7 @@ func ruleAPINil(w *World, r *RuleResult) {
 				for j := 0; j < i; j++ {
 					e2 := &p.Events[j]
 					if e2.Kind == "store" {
-						if x, ok := selOf(e2.LV, c.a.QField); ok && stripEpoch(x).Key() == wk && e2.Val.Op == "call" {
+						if x, ok := selOf(e2.LV, c.a.QField); ok && stripEpoch(x).Key() == wk && c.freshQueue(w, e2.Val) {
 							fresh = true
 						}
 					}
@@ -1193,7 +1212,7 @@ func ruleResetCover(w *World, r *RuleResult) {
 								if _, ok := selOf(e.LV, c.a.StateField); ok {
 									alive = true
 								}
-								if _, ok := selOf(e.LV, c.a.QField); ok && e.Val.Op == "call" && !alive {
+								if _, ok := selOf(e.LV, c.a.QField); ok && c.freshQueue(w, e.Val) && !alive {
 									fresh = true
 								}
 							}
